@@ -117,8 +117,6 @@ OPTIONAL = {"mark_dirty_abs", "write_to_mmap", "regions_write_at", "regions_flus
 # exists the tables are out of date - that is reported as such (exit 2), never as a property violation.
 NAMED_FIELDS = {
     "rawdb::layout::Layout": ["start_to_region", "start_to_hole", "hole_to_starts", "start_to_reserved", "pending_holes"],
-    "rawdb::DatabaseInner": ["regions", "file"],
-    "vecdb::base::change::cursor::ChangeCursor": ["bytes", "pos"],
     "vecdb::base::header::inner::HeaderInner": ["vec_version", "computed_version", "stamp"],
     "vecdb::variants::compressed::inner::page::Page": ["start", "bytes"],
     "vecdb::variants::compressed::inner::pages::Pages": ["vec"],
@@ -130,9 +128,34 @@ FIELDS_USED_BY = {
     "C09": ["vecdb::variants::compressed::inner::page::Page", "vecdb::variants::compressed::inner::pages::Pages"],
     "C20": ["vecdb::variants::compressed::inner::page::Page", "vecdb::variants::compressed::inner::pages::Pages"],
     "C14": ["vecdb::base::header::inner::HeaderInner"], "C19": ["vecdb::base::header::inner::HeaderInner"],
-    "C16": ["vecdb::base::change::cursor::ChangeCursor"], "C17": ["vecdb::base::change::cursor::ChangeCursor"],
-    "C18": ["rawdb::DatabaseInner"],
 }
+
+
+def cursor_fields(P):
+    """(name of the byte-slice field, name of the position field) of ChangeCursor, found by TYPE so that a rename of
+    these two private fields does not disturb the rules that look at them"""
+    a = P.adts.get("vecdb::base::change::cursor::ChangeCursor")
+    if a is None:
+        raise AnchorMissing("type vecdb::base::change::cursor::ChangeCursor not found")
+    fs = a["variants"][0]["fields"]
+    by = [f["name"] for f in fs if "[u8]" in f["ty"]]
+    ps = [f["name"] for f in fs if f["ty"] == "usize"]
+    if len(by) != 1 or len(ps) != 1:
+        raise AnchorMissing("ChangeCursor: expected one &[u8] field and one usize field, found %s / %s" % (by, ps))
+    return by[0], ps[0]
+
+
+def db_lock_fields(P):
+    """(name of the field holding the locked data File, name of the field holding Regions) of DatabaseInner, by type"""
+    a = P.adts.get("rawdb::DatabaseInner")
+    if a is None:
+        raise AnchorMissing("ADT rawdb::DatabaseInner not found")
+    fs = a["variants"][0]["fields"]
+    fl = [f["name"] for f in fs if "std::fs::File" in f["ty"]]
+    rg = [f["name"] for f in fs if "rawdb::regions::Regions" in f["ty"] or "crate::regions::Regions" in f["ty"]]
+    if len(fl) != 1 or len(rg) != 1:
+        raise AnchorMissing("DatabaseInner: expected one File field and one Regions field, found %s / %s" % (fl, rg))
+    return fl[0], rg[0]
 
 
 def require_fields(P, pid=None):
